@@ -180,3 +180,35 @@ Theorem C09_code_whole_returns_split : forall (V : Type) (vnone : V) (vint : Z -
     g_fit_stacked_data_result V vint as_int getattr oracle st data (getattr (getattr data "shape"%string) "[0]"%string) log1 = (Ret r, log').
 Proof. exact full_returns_split. Qed.
 Print Assumptions C09_code_whole_returns_split.
+
+(* ---- the LABELLING STEP's control skeleton INTERPRETED by the hand model of the kernel (Proofs/InterpPredict.v; any carrier, any
+   likelihood table function): as translated, predict_cluster_labels returns the state it was given with exactly two fields replaced -
+   the labels and the cost that Model/Viterbi computes on the NEGATED table of THAT state and THAT data with the state's own switching
+   cost(s).  Over the reals, by C01_optimal: the stored labelling is a minimum-cost labelling of that table and the stored cost is its
+   cost.  (The kernel as translated is that model kernel: C01_code_*.)  What the step reports is what it scored, and it is optimal. ---- *)
+From Coq Require Import Reals.
+From Ticc Require Import Model.Viterbi Model.InstR Gen.G_la_predict Proofs.InterpPredict.
+Theorem C09_code_relabel_interpreted : forall (A : Type) (zero : A) (add sub : A -> A -> A) (ltb : A -> A -> bool) (neg : A -> A)
+    (St Dat : Type) (table_of : St -> Dat -> list (list A)) (K : nat) (s : St) (d : Dat) (lab0 : option (list nat)) (cost0 : option A) (bs : list A),
+  exists log',
+    g_predict_cluster_labels (val A St Dat) (@InterpPredict.getattr A St Dat) (@InterpPredict.truthy A St Dat) (@InterpPredict.vglobal A St Dat)
+        (oracle_model A zero add sub ltb neg St Dat table_of K) (VModel s (VVector bs) lab0 cost0) (VData d) []
+    = (Ret (let r := viterbi zero add sub ltb K (map (map neg) (table_of s d)) bs in VModel s (VVector bs) (Some (fst r)) (Some (snd r))), log').
+Proof. intros. apply predict_skeleton_vector. Qed.
+Print Assumptions C09_code_relabel_interpreted.
+
+Theorem C09_code_relabel_optimal : forall (St Dat : Type) (table_of : St -> Dat -> list (list R)) (K : nat)
+    (s : St) (d : Dat) (lab0 : option (list nat)) (cost0 : option R) (betas : list R),
+  let rows := map (map Ropp) (table_of s d) in
+  (0 < K)%nat -> (N.of_nat K <= 65536)%N -> rows <> [] -> wf_rows K rows -> Forall (fun b => 0 <= b)%R betas ->
+  exists (log' : list (event (val R St Dat))) (labels : list nat) (cost : R),
+    g_predict_cluster_labels (val R St Dat) (@InterpPredict.getattr R St Dat) (@InterpPredict.truthy R St Dat) (@InterpPredict.vglobal R St Dat)
+        (oracle_model R 0%R Rplus Rminus Rltb Ropp St Dat table_of K)
+        (VModel s (VVector betas) lab0 cost0) (VData d) []
+    = (Ret (VModel s (VVector betas) (Some labels) (Some cost)), log') /\
+    length labels = length rows /\ wf_path K labels /\
+    cost = pcost 0%R Rplus rows betas labels /\
+    forall path : list nat, length path = length rows -> wf_path K path ->
+      (cost <= pcost 0%R Rplus rows betas path)%R.
+Proof. exact predict_skeleton_optimal_R. Qed.
+Print Assumptions C09_code_relabel_optimal.
